@@ -1,5 +1,399 @@
-use crate::Ctx;
+//! C15 – a client vanishing at any point is contained (fault enumeration).
+//! Request side: for each conversation of a corpus and EVERY prefix length k in 0..=len the
+//! client sends k bytes and then half-closes, closes or resets. Response side: responses of
+//! every framing kind and sizes up to 4 MiB to a client that is gone before the response, reads
+//! j bytes and resets, or does not read and then closes.
 
-pub fn run(_ctx: &Ctx) {
-    unimplemented!()
+use crate::conv::*;
+use crate::env::Env;
+use crate::gen::{self, AbsReq};
+use crate::net::End;
+use crate::pconv::{read_sizes, simple_req, Pipe};
+use crate::report::Violation;
+use crate::util::{Rng, J};
+use crate::Ctx;
+use std::time::Duration;
+
+#[derive(Clone, Copy, Debug, PartialEq)]
+enum Fault {
+    HalfClose,
+    Close,
+    Reset,
+}
+
+/// Conversations of the corpus: valid pipelines covering all framing kinds.
+fn corpus_case(seed: u64, i: u64) -> (ConvCase, Vec<usize>, String) {
+    let cs = crate::util::mix(seed, 0xC15, i);
+    let mut rng = Rng::new(cs);
+    let mut p = Pipe::new();
+    let n = rng.range(1, 3);
+    let mut kinds = Vec::new();
+    // offset (within the wire) from which on request j is deliverable
+    let mut deliverable_at = Vec::new();
+    let mut off = 0usize;
+    for j in 0..n {
+        let kind = (i as usize + j * 3 + rng.below(2)) % 7;
+        let mut a: AbsReq = simple_req(cs, j, (1, 1));
+        let (wire_body, designated, label): (Vec<u8>, Vec<u8>, &str) = match kind {
+            0 => (Vec::new(), Vec::new(), "no-body"),
+            1 => {
+                let len = *rng.pick(&[1usize, 20, 100]);
+                a.method = "POST".into();
+                a.add("Content-Length", &format!(" {}", len));
+                let d = gen::body_bytes(cs ^ j as u64, len, true);
+                (d.clone(), d, "cl-small")
+            }
+            2 => {
+                a.method = "POST".into();
+                a.add("Content-Length", " 1024");
+                let d = gen::body_bytes(cs ^ j as u64, 1024, false);
+                (d.clone(), d, "cl-1024")
+            }
+            3 => {
+                let len = *rng.pick(&[1025usize, 1500, 3000]);
+                a.method = "POST".into();
+                a.add("Content-Length", &format!(" {}", len));
+                let d = gen::body_bytes(cs ^ j as u64, len, true);
+                (d.clone(), d, "cl-streamed")
+            }
+            4 => {
+                let len = *rng.pick(&[5usize, 200, 1500]);
+                a.method = "PUT".into();
+                a.add("Transfer-Encoding", " chunked");
+                let d = gen::body_bytes(cs ^ j as u64, len, true);
+                let ch = gen::gen_chunking(&mut rng, len, 300);
+                (gen::encode_chunked(&d, &ch), d, "chunked")
+            }
+            5 => {
+                // a longer head (several reads of the 1 KiB buffer)
+                for h in 0..rng.range(5, 30) {
+                    a.add(&format!("X-H{}", h), &format!(" {}", gen::vchars(&mut rng, 40)));
+                }
+                (Vec::new(), Vec::new(), "long-head")
+            }
+            _ => {
+                a.version = (1, 0);
+                a.add("Connection", " keep-alive");
+                (Vec::new(), Vec::new(), "http10-keepalive")
+            }
+        };
+        kinds.push(label);
+        let head_len = a.head_bytes().len();
+        let buffered = matches!(label, "cl-small" | "cl-1024");
+        deliverable_at.push(off + head_len + if buffered { wire_body.len() } else { 0 });
+        off += head_len + wire_body.len();
+        let plan = ReqPlan {
+            read: ReadPlan::ToEof { extra: 0 },
+            read_sizes: read_sizes(&mut rng, designated.len()),
+            as_reader_calls: 1,
+            finish: Finish::Respond { status: 200, body_len: *rng.pick(&[0usize, 10, 2000]), declared: true, threshold: None, max_piece: 100000 },
+            pre_delay_us: 0,
+        };
+        p.push_valid(&a, &wire_body, designated, LenExp::Any, plan, label);
+    }
+    let case = p.finish(&mut rng, &kinds.join("+"), false, &[], true, 1500);
+    (case, deliverable_at, kinds.join("+"))
+}
+
+fn cut_class(case: &ConvCase, k: usize) -> &'static str {
+    let mut off = 0;
+    for r in &case.reqs {
+        if k < off + r.head_len {
+            return if k == off { "at-message-boundary" } else { "inside-head" };
+        }
+        if k < off + r.bytes.len() {
+            return match r.label.as_str() {
+                "cl-small" | "cl-1024" => "inside-buffered-body",
+                "chunked" => "inside-chunked-body",
+                _ => "inside-streamed-body",
+            };
+        }
+        off += r.bytes.len();
+    }
+    "after-everything"
+}
+
+fn run_cut(ctx: &Ctx, env: &Env, base: &ConvCase, deliverable_at: &[usize], k: usize, fault: Fault, conv_id: u64) {
+    let rep = &ctx.rep;
+    let mut case = base.clone();
+    let mut script = Vec::new();
+    if k > 0 {
+        script.push(Step::SendPaced { from: 0, ends: vec![k], pause_us: 300 });
+    }
+    match fault {
+        Fault::HalfClose => {
+            script.push(Step::HalfClose);
+            script.push(Step::AwaitEnd);
+        }
+        Fault::Close => script.push(Step::Close),
+        Fault::Reset => script.push(Step::Reset),
+    }
+    case.script = script;
+    let panics_before = crate::env::panics_count();
+    let obs = run_conv(env, &case);
+    let class = cut_class(base, k);
+    rep.inc(&format!("cut:{}:{:?}", class, fault));
+    let sig = format!("{:x}|{}|{:?}", conv_id, k, fault);
+    if obs.connect_err.is_some() || (obs.timed_out.is_some() && !obs.healthy) {
+        rep.inconclusive("cut run inconclusive");
+        return;
+    }
+    rep.eval(Some(&sig));
+    let deliverable = deliverable_at.iter().filter(|d| **d <= k).count();
+    let mut finding: Option<(String, String)> = None;
+    // 1. nothing incomplete is delivered; deliveries are the first complete requests, in order
+    if obs.delivered.len() > deliverable {
+        let d = &obs.delivered[deliverable];
+        finding = Some((
+            "incomplete-request-delivered".into(),
+            format!(
+                "prefix of {} bytes contains {} complete request(s) but {} were delivered (extra: {} {})",
+                k,
+                deliverable,
+                obs.delivered.len(),
+                d.method,
+                crate::util::esc(d.url.as_bytes(), 60)
+            ),
+        ));
+    }
+    for (i, d) in obs.delivered.iter().enumerate().take(deliverable) {
+        let a = case.reqs[i].abs.as_ref().unwrap();
+        if finding.is_none() && (d.url != a.target || d.method != a.method) {
+            finding = Some(("wrong-request-delivered".into(), format!("delivery #{} is {} {}", i, d.method, crate::util::esc(d.url.as_bytes(), 60))));
+        }
+    }
+    // 2. after an orderly half-close the complete requests are delivered and answered
+    if finding.is_none() && fault == Fault::HalfClose {
+        if obs.delivered.len() < deliverable {
+            finding = Some((
+                "complete-request-not-delivered".into(),
+                format!("{} complete request(s) in the prefix, only {} delivered after half-close", deliverable, obs.delivered.len()),
+            ));
+        } else if obs.parse_error.is_some() {
+            finding = Some(("response-stream-malformed".into(), obs.parse_error.clone().unwrap()));
+        } else {
+            let finals = obs.msgs.iter().filter(|m| !m.0.is_interim()).count();
+            if finals != deliverable {
+                finding = Some((
+                    "complete-request-not-answered".into(),
+                    format!("{} complete request(s), {} response(s) reached the client", deliverable, finals),
+                ));
+            } else if obs.end == End::Open {
+                finding = Some(("no-eof-after-half-close".into(), "server did not close after the client half-closed".into()));
+            }
+        }
+    }
+    // 3. answering a vanished client returns success; body reads end; no panic
+    if finding.is_none() {
+        for d in &obs.delivered {
+            if let Some(e) = &d.finish_err {
+                finding = Some(("respond-returned-error".into(), format!("delivery #{}: respond returned {}", d.k, e)));
+                break;
+            }
+        }
+    }
+    if finding.is_none() && !obs.handlers_done {
+        finding = Some(("handler-blocked".into(), "a body read or respond call did not return within the bound after the client was gone".into()));
+    }
+    let new_panics = crate::env::panics_count().saturating_sub(panics_before);
+    if finding.is_none() && new_panics > 0 {
+        let p = crate::env::panics_take();
+        finding = Some((
+            "panic".into(),
+            format!("panic: {}", p.last().map(|x| format!("{} at {} in thread {}", x.message, x.location, x.thread)).unwrap_or_default()),
+        ));
+    }
+    // 4. the server keeps serving
+    if finding.is_none() && env.control(Duration::from_millis(1000)).is_none() {
+        if env.control(Duration::from_millis(1500)).is_none() {
+            finding = Some(("server-stopped-serving".into(), "a fresh connection was not served after the fault".into()));
+        }
+    }
+    for d in &obs.delivered {
+        if d.finish == "respond" && d.finish_err.is_none() && fault != Fault::HalfClose {
+            rep.inc("responses_written_to_a_vanished_peer_ok");
+        }
+        if d.read_err.is_some() {
+            rep.inc("body_reads_ended_with_error");
+        } else if d.eof_seen {
+            rep.inc("body_reads_ended_with_eof");
+        }
+    }
+    if let Some((asp, what)) = finding {
+        rep.violation(Violation {
+            signature: format!("C15/{}/{:?}/{}", class, fault, asp),
+            what,
+            detail: history_json(&case, &obs).set("prefix_len", J::u(k)).set("fault", J::s(format!("{:?}", fault))).set("complete_requests_in_prefix", J::u(deliverable)),
+            case_seed: conv_id,
+            mode: format!("cut:{}:{:?}", k, fault),
+        });
+    } else if rep.want_sample() && (k * 7 + conv_id as usize) % 97 == 0 {
+        rep.sample(|| {
+            J::obj()
+                .set("conversation", J::s(&base.label))
+                .set("wire_len", J::u(base.wire.len()))
+                .set("prefix_len", J::u(k))
+                .set("cut_class", J::s(class))
+                .set("fault", J::s(format!("{:?}", fault)))
+                .set("delivered", J::u(obs.delivered.len()))
+                .set("responses_seen_by_client", J::u(obs.msgs.len()))
+        });
+    }
+}
+
+// ---------------------------------------------------------------------------------------------
+// response side
+
+fn run_response_case(ctx: &Ctx, env: &Env, cs: u64) {
+    let rep = &ctx.rep;
+    let mut rng = Rng::new(cs);
+    let body_len = *rng.pick(&[0usize, 100, 5000, 70000, 1 << 20, 4 << 20]);
+    let declared = rng.chance(1, 2);
+    let behaviour = rng.below(3);
+    let j = if body_len == 0 { 0 } else { rng.below(body_len.min(200000)) };
+    let mut p = Pipe::new();
+    let a = simple_req(cs, 0, if rng.chance(1, 4) { (1, 0) } else { (1, 1) });
+    let plan = ReqPlan {
+        read: ReadPlan::None,
+        read_sizes: vec![4096],
+        as_reader_calls: 1,
+        finish: if rng.chance(1, 5) {
+            Finish::Writer { status: 200, body_len, parts: vec![(100, true), (50000, false)], early_drop_sleep_us: 0 }
+        } else {
+            Finish::Respond { status: 200, body_len, declared, threshold: None, max_piece: 1 << 20 }
+        },
+        pre_delay_us: if behaviour == 0 { 3000 } else { 0 },
+    };
+    let flabel = plan.finish_label();
+    p.push_valid(&a, &[], Vec::new(), LenExp::Any, plan, "resp");
+    let mut case = p.finish(&mut rng, "response-side", false, &[], false, 3000);
+    let wl = case.wire.len();
+    let blabel;
+    case.script = match behaviour {
+        0 => {
+            blabel = "gone-before-response";
+            vec![Step::Send(0, wl), if rng.chance(1, 2) { Step::Close } else { Step::Reset }]
+        }
+        1 => {
+            blabel = "reads-some-then-resets";
+            // wait for the first bytes, then reset in the middle of the response
+            vec![Step::Send(0, wl), Step::SleepUs(200 + (j as u64 % 3000)), Step::Reset]
+        }
+        _ => {
+            blabel = "not-reading-then-close";
+            vec![Step::Send(0, wl), Step::SleepUs(200_000), Step::Close]
+        }
+    };
+    let panics_before = crate::env::panics_count();
+    let obs = run_conv(env, &case);
+    rep.inc(&format!("response-side:{}", blabel));
+    if obs.connect_err.is_some() || (obs.timed_out.is_some() && !obs.healthy) {
+        rep.inconclusive("response-side run inconclusive");
+        return;
+    }
+    let framing = if flabel == "writer" { "raw" } else if declared && body_len < 32768 { "identity" } else { "chunked-or-1.0-identity" };
+    rep.eval(Some(&format!("resp|{}|{}|{}|{}", blabel, body_len, framing, flabel)));
+    let mut finding: Option<(String, String)> = None;
+    for d in &obs.delivered {
+        if flabel == "respond" {
+            if let Some(e) = &d.finish_err {
+                finding = Some(("respond-returned-error".into(), format!("respond to a vanished client returned {}", e)));
+            } else if d.done {
+                rep.inc("responses_written_to_a_vanished_peer_ok");
+            }
+        }
+    }
+    if finding.is_none() && !obs.handlers_done {
+        finding = Some(("handler-blocked".into(), "respond did not return within the bound after the client was gone".into()));
+    }
+    if finding.is_none() && crate::env::panics_count() > panics_before {
+        let pz = crate::env::panics_take();
+        finding = Some(("panic".into(), format!("panic: {}", pz.last().map(|x| format!("{} at {}", x.message, x.location)).unwrap_or_default())));
+    }
+    if finding.is_none() && env.control(Duration::from_millis(1000)).is_none() && env.control(Duration::from_millis(1500)).is_none() {
+        finding = Some(("server-stopped-serving".into(), "a fresh connection was not served afterwards".into()));
+    }
+    if let Some((asp, what)) = finding {
+        rep.violation(Violation {
+            signature: format!("C15/response-side/{}/{}", blabel, asp),
+            what,
+            detail: history_json(&case, &obs),
+            case_seed: cs,
+            mode: "response-side".into(),
+        });
+    }
+}
+
+pub fn run(ctx: &Ctx) {
+    crate::env::install_fp_hook();
+    crate::env::track_reads(true);
+    let mut env = Env::new(false, 1);
+    if let Some((cs, mode, repeat)) = &ctx.replay {
+        for _ in 0..(*repeat).max(1) {
+            if mode == "response-side" {
+                run_response_case(ctx, &env, *cs);
+            } else {
+                // mode = cut:<k>:<fault>, case_seed = (corpus seed, index) packed by `conv_id`
+                let mut it = mode.split(':');
+                it.next();
+                let k: usize = it.next().and_then(|s| s.parse().ok()).unwrap_or(0);
+                let fault = match it.next().unwrap_or("") {
+                    "Close" => Fault::Close,
+                    "Reset" => Fault::Reset,
+                    _ => Fault::HalfClose,
+                };
+                let (case, da, _) = corpus_case(*cs >> 16, *cs & 0xffff);
+                run_cut(ctx, &env, &case, &da, k, fault, *cs);
+            }
+        }
+        return;
+    }
+    // the corpus is fixed per VERIF_SEED; conversations are distributed over the shards and every
+    // cut point x fault kind of a conversation is enumerated
+    let corpus_size: u64 = if ctx.thorough { 48 } else { 16 };
+    let mut completed = 0u64;
+    let mut i = ctx.shard as u64;
+    let mut all_done = true;
+    while i < corpus_size {
+        let (case, da, label) = corpus_case(ctx.seed, i);
+        let conv_id = (ctx.seed << 16) | i;
+        let n = case.wire.len();
+        let mut finished = true;
+        'cuts: for k in 0..=n {
+            for fault in [Fault::HalfClose, Fault::Close, Fault::Reset] {
+                if ctx.elapsed_ms() > ctx.budget_ms * 4 + 60_000 {
+                    finished = false;
+                    break 'cuts;
+                }
+                if env.cases_run >= 4000 {
+                    env = Env::new(false, 1);
+                }
+                run_cut(ctx, &env, &case, &da, k, fault, conv_id);
+                env.cases_run += 1;
+            }
+            if ctx.rep.n_violations() >= 10 {
+                finished = false;
+                break;
+            }
+        }
+        if finished {
+            completed += 1;
+            ctx.rep.inc(&format!("conversation_enumerated_completely:{}", label));
+        } else {
+            all_done = false;
+        }
+        i += ctx.nshards as u64;
+    }
+    ctx.rep.set_extra("conversations_enumerated_completely", J::I(completed as i64));
+    ctx.rep.set_extra("enumeration_complete_this_shard", J::B(all_done));
+    // response-side matrix for the rest of the budget
+    let mut idx = 0u64;
+    while ctx.time_left() && ctx.rep.n_violations() < 10 {
+        if env.cases_run >= 2000 {
+            env = Env::new(false, 1);
+        }
+        run_response_case(ctx, &env, ctx.case_seed(idx));
+        env.cases_run += 1;
+        idx += 1;
+    }
 }
